@@ -306,16 +306,22 @@ class BehavioralRTLIRToVVisitorL1( bir.BehavioralRTLIRNodeVisitor ):
   # visit_ZeroExt
   #-----------------------------------------------------------------------
 
+  def visit_expr_wrap( s, node ):
+    """Return the operand `node` in a form that can be spliced into a larger
+    expression. There are no composite expressions at L1."""
+    return s.visit( node )
+
   def visit_ZeroExt( s, node ):
     node.value._top_expr = True
 
-    value = s.visit( node.value )
     target_nbits = node.nbits
     current_nbits = int(node.value.Type.get_dtype().get_length())
     padded_nbits = target_nbits - current_nbits
     if padded_nbits == 0:
-      return value
+      # The operand itself takes the place of the extension
+      return s.visit_expr_wrap( node.value )
     else:
+      value = s.visit( node.value )
       return f"{{ {{ {padded_nbits} {{ 1'b0 }} }}, {value} }}"
 
   #-----------------------------------------------------------------------
@@ -328,14 +334,16 @@ class BehavioralRTLIRToVVisitorL1( bir.BehavioralRTLIRNodeVisitor ):
   def visit_SignExt( s, node ):
     node.value._top_expr = True
 
-    value = s.visit( node.value )
     target_nbits = node.nbits
     current_nbits = int(node.value.Type.get_dtype().get_length())
     last_bit = current_nbits - 1
     padded_nbits = target_nbits - current_nbits
 
     if padded_nbits == 0:
-      return value
+      # The operand itself takes the place of the extension
+      return s.visit_expr_wrap( node.value )
+
+    value = s.visit( node.value )
 
     template = "{{ {{ {padded_nbits} {{ {value}[{last_bit}] }} }}, {value} }}"
     one_bit_template = "{{ {{ {padded_nbits} {{ {_value} }} }}, {value} }}"
@@ -389,12 +397,13 @@ class BehavioralRTLIRToVVisitorL1( bir.BehavioralRTLIRNodeVisitor ):
 
   def visit_Truncate( s, node ):
     nbits = node.nbits
-    value = s.visit( node.value )
     dtype = node.value.Type.get_dtype()
     if isinstance(dtype, rdt.Vector) and dtype.get_length() > nbits:
+      value = s.visit( node.value )
       return f"{nbits}'({value})"
     else:
-      return value
+      # The operand itself takes the place of the truncation
+      return s.visit_expr_wrap( node.value )
 
   #-----------------------------------------------------------------------
   # visit_Reduce
@@ -408,7 +417,7 @@ class BehavioralRTLIRToVVisitorL1( bir.BehavioralRTLIRNodeVisitor ):
     if op_t not in reduce_ops:
       raise VerilogTranslationError( s.blk, node,
           f"unrecognized operator {op_t} for reduce method!" )
-    value = s.visit( node.value )
+    value = s.visit_expr_wrap( node.value )
     op = reduce_ops[ op_t ]
     return f"( {op} {value} )"
 
